@@ -79,7 +79,7 @@ def _check(desc, tier, V, st):
         gf = got[:n].copy()
         if S.per:
             gf[:d] += got[n:]
-        if np.abs(gf - Ifold).max() > tolI:
+        if not (np.abs(gf - Ifold).max() <= tolI):
             V('integrals:%s%s' % (cls, tag), '%s: (folded) basis integrals off by %.3g; sum %.6g vs domain length %.6g' % (key, np.abs(gf - Ifold).max(), gf.sum(), L))
     integrals_ok('')
     for call in (1, 2, 3):
@@ -95,12 +95,12 @@ def _check(desc, tier, V, st):
         if w.shape != (n,):
             V('weights-shape:' + cls, '%s: weights have shape %r, expected (%d,)' % (key, w.shape, n))
             return
-        if np.abs(w - wex).max() > tolW:
+        if not (np.abs(w - wex).max() <= tolW):
             V('weights:%s%s' % (cls, tag), '%s: quadrature weights off by %.3g (tol %.3g); sum(w) = %.6g, domain length %.6g (call %d)' % (
                 key, np.abs(w - wex).max(), tolW, w.sum(), L, call))
-        elif abs(w.sum() - L) > tolW * n:
+        elif not (abs(w.sum() - L) <= tolW * n):
             V('weights-sum:%s%s' % (cls, tag), '%s: sum(w) = %.17g != %.17g' % (key, w.sum(), L))
-        elif S.per and len(set(desc['widths'])) == 1 and np.abs(w - w[0]).max() > tolW:
+        elif S.per and len(set(desc['widths'])) == 1 and not (np.abs(w - w[0]).max() <= tolW):
             V('weights-unequal:%s%s' % (cls, tag), '%s: weights on a uniform periodic space are not all equal' % key)
         integrals_ok(':after-weights')
 
